@@ -180,6 +180,8 @@ class SyncRun:
         return None if sel is None else sel.lookup
 
     def _data(self, mbx: str):
+        if self.backend != 'dict':
+            return None
         mset = self.w.mailbox_set()
         if mset is None:
             return None
@@ -187,6 +189,8 @@ class SyncRun:
 
     def obj_of(self, mbx: str) -> str:
         """stable identity of the mailbox object behind a name ('' if none)"""
+        if self.backend != 'dict':
+            return mbx             # maildir: a mailbox is its name (no rename in these runs)
         data = self._data(mbx)
         if data is None:
             return ''
